@@ -8,6 +8,10 @@
      Access(via)        the attribute is reached (directly, through an instance, the class, a subclass, an
                         instance of a subclass, a FALSY instance): the descriptor protocol binds;
      Call(c, p)         the accessed object is called through convention c with argument pattern p.
+   A history is MaxCalls Access+Call steps on the SAME decorated attribute (CALLS=2: every ordered pair of access
+   paths, conventions and patterns): each call is prescribed exactly as if it were the only one - the bound
+   object of a call is determined by THAT call's access path; whatever an earlier access or call left behind on
+   the shared decorator object must not matter (action property CallsIndependent).
    Every Call appends to hist what the PROPERTY prescribes (Stated): which body runs, the bound first argument,
    the normalised arguments (a, b, k of `def body([first,] a, b=20, *, k=30)`), the outcome, whether the
    direct call returns a future, and the classification helpers' answers for the accessed object.  TLC enumerates
@@ -24,7 +28,7 @@
 EXTENDS Naturals, Sequences, FiniteSets, TLC, Json, IOUtils
 
 MaxCalls == IF "CALLS" \in DOMAIN IOEnv THEN atoi(IOEnv.CALLS) ELSE 1
-FewPats  == "PATS" \in DOMAIN IOEnv /\ IOEnv.PATS = "few"
+Pats     == IF "PATS" \in DOMAIN IOEnv THEN IOEnv.PATS ELSE "all"      \* "all" | "few" | "one"
 
 Decos  == {"plain", "asynq", "pure", "proxy_task", "proxy_const", "asynq_sync", "proxy_sync", "mad", "dedup",
            "aretry", "alru", "acpi"}
@@ -32,7 +36,7 @@ DefKs  == {"function", "method", "classmethod", "staticmethod"}
 Bodies == {"plain", "gen", "batch"}
 Convs  == {"sync", "asynq", "yield", "async_call", "get_async_fn", "get_async_or_sync_fn"}
 AllPats == {"pos", "kw", "mixed", "default", "kwonly"}
-ArgPats == IF FewPats THEN {"pos", "kwonly"} ELSE AllPats
+ArgPats == CASE Pats = "few" -> {"pos", "kwonly"} [] Pats = "one" -> {"pos"} [] OTHER -> AllPats
 
 (* combinations that exist: the function-style wrappers only on the bindings they are written for; a
    ConstFuture / an undecorated function has no generator body; caches are not called twice (C13 owns that) *)
@@ -143,11 +147,16 @@ Spec == Init /\ [][Next]_vars
 (* ---- the property, on the model (evaluated in every state in which an object has been accessed) ---- *)
 Cell(c, p) == Stated(deco, defk, body, obj.via, c, p)
 ConventionsAgree ==        \* same bound object, same arguments; same body and outcome unless sync_fn steps in
-  obj # NoObj => \A p \in AllPats : \A c1, c2 \in ConvsOf(deco) :
-    /\ Cell(c1, p).bound = Cell(c2, p).bound
-    /\ <<Cell(c1, p).a, Cell(c1, p).b, Cell(c1, p).k>> = <<Cell(c2, p).a, Cell(c2, p).b, Cell(c2, p).k>>
-    /\ (Cell(c1, p).ran = Cell(c2, p).ran => Cell(c1, p).extra = Cell(c2, p).extra /\ Cell(c1, p).wrapped = Cell(c2, p).wrapped)
-    /\ (Cell(c1, p).ran # Cell(c2, p).ran => HasSyncFn(deco) /\ "sync" \in {c1, c2})
+  (* every convention is compared with async_call, which exists for every kind: agreement with a common
+     reference is pairwise agreement *)
+  obj # NoObj => \A p \in AllPats :
+    LET r == Cell("async_call", p) IN
+    \A c \in ConvsOf(deco) :
+      LET x == Cell(c, p) IN
+      /\ x.bound = r.bound
+      /\ <<x.a, x.b, x.k>> = <<r.a, r.b, r.k>>
+      /\ (x.ran = r.ran => x.extra = r.extra /\ x.wrapped = r.wrapped)
+      /\ (x.ran # r.ran => HasSyncFn(deco) /\ c = "sync")
 SyncFnWins ==
   obj # NoObj => \A p \in AllPats : \A c \in ConvsOf(deco) :
     Cell(c, p).ran = IF HasSyncFn(deco) /\ c = "sync" THEN "sync" ELSE "async"
@@ -164,6 +173,12 @@ ClassificationConsistent ==
     /\ (cl.is_async = 1) <=> (cl.is_pure = 1 \/ cl.has_async = 1)
     /\ (cl.get_async_fn_none = 1) <=> (cl.is_async = 0)
     /\ (cl.is_async = 1) <=> ("get_async_fn" \in ConvsOf(deco))
+
+CallsIndependent ==        \* what is prescribed for a call does not depend on the calls before it (but for the values)
+  [][Len(hist') > Len(hist) =>
+       LET o == hist'[Len(hist')] IN
+       /\ o.res.bound = StatedBound(defk, o.via) /\ o.res.ran = StatedRan(deco, o.conv)
+       /\ o.cls = Classification(deco)]_vars
 
 Terminal == Len(hist) = MaxCalls
 Export == Terminal => PrintT(ToJson([deco |-> deco, defk |-> defk, body |-> body, h |-> hist]))
